@@ -431,6 +431,182 @@ def main():
             pair.close()
     hlib.compare_batch(res, drv, "SecsIProtocol receive path (blocks accepted in line order) vs Model.SecsI.reassemble", cases, lines, answers)
 
+    # ------------------------------------------------------------ E2. a block other than the last is damaged on the line (real sender, real receiver)
+    # whatever the sender does after the NAK, the receiver must never hand over a message whose body is not the body that was sent
+    for i in range(12 if big else 4):
+        rr = rng.fork(f"mid{i}")
+        pair = c17.Pair(rr.fork("pair"), [rr.choice([3, 64, 300])], False, 0)
+        try:
+            direction = rr.choice(["H2E", "E2H"])
+            snd, rkey = (pair.host, "E") if direction == "H2E" else (pair.equip, "H")
+            a_end = pair.ch if direction == "H2E" else pair.ce
+            a_end.name, a_end.peer.name = "a", "b"
+            nblocks = rr.choice([3, 4, 5])
+            body = rr.bytes(244 * (nblocks - 1) + rr.range(1, 244))
+            j = rr.range(0, nblocks - 2)
+            pair.world.fault = ("a", 2 * j + 1, rr.range(1, 12), rr.range(0, 255))
+            system = rr.range(0, 2**32 - 1)
+            out = {}
+
+            def go(out=out, system=system, body=body):
+                try:
+                    out["r"] = snd.send_response(c17.Fn(6, 11, False, body), system)
+                except Exception as exc:  # noqa: BLE001
+                    out["r"] = hlib.errkind(exc)
+            t = threading.Thread(target=go, daemon=True)
+            t.start()
+            t.join(30)
+            time.sleep(0.3)
+            got = [(int(m.header.system), bytes(m.data), len(m.blocks)) for m in pair.got[rkey]]
+            case = {"direction": direction, "blocks": nblocks, "damaged_block": j + 1, "body_len": len(body), "send_result": out.get("r", "blocked")}
+            res.count(("mid-fault", direction, nblocks, j), sample=case if i < 2 else None)
+            bad = [g for g in got if g[1] != body]
+            if bad:
+                res.violate("reassembly", f"block {j + 1} of {nblocks} was damaged on the line: the receiver handed over a message with a body of {len(bad[0][1])} bytes in "
+                            f"{bad[0][2]} blocks (sent: {len(body)} bytes in {nblocks} blocks)", case)
+            elif got and out.get("r") is not True:
+                res.violate("reassembly", "a message was delivered although the send call did not report success", case)
+        except Exception as exc:  # noqa: BLE001
+            res.violate("reassembly", f"mid-block fault scenario: {hlib.errkind(exc)}: {exc}", {"i": i})
+        finally:
+            pair.close()
+
+    # ------------------------------------------------------------ F. a scripted FOREIGN sender on the line of one real SecsIProtocol
+    # (what the library's own sender never does, but E4 allows): blocks of two multi-block messages interleaved; a damaged block that is
+    # NAKed and then retransmitted; non-final blocks shorter than 244 bytes.  Reference: Model.SecsI.reassemble over exactly the ACKed blocks.
+    from secsgem.secsi import SecsIProtocol
+    cases, lines, answers = [], [], []
+
+    class Wire(secsgem.common.Connection):
+        def __init__(self, settings):
+            super().__init__(settings)
+            self.sent = []
+            self.cv = threading.Condition()
+
+        def enable(self):
+            pass
+
+        def disable(self):
+            pass
+
+        def send_data(self, data):
+            with self.cv:
+                self.sent.extend(bytes(data))
+                self.cv.notify_all()
+            return True
+
+        def take(self, bound=20.0):
+            """next control byte the endpoint wrote (EOT / ACK / NAK), or None"""
+            with self.cv:
+                if not self.cv.wait_for(lambda: len(self.sent) > 0, bound):
+                    return None
+                return self.sent.pop(0)
+
+    class WS(c17.SecsISettings):
+        def create_connection(self):
+            self.conn = Wire(self)
+            return self.conn
+
+    for i in range(30 if big else 10):
+        rr = rng.fork(f"fs{i}")
+        proto = SecsIProtocol(WS(port="X", device_type=rr.choice([secsgem.common.DeviceType.HOST, secsgem.common.DeviceType.EQUIPMENT]), device_id=5))
+        wire = proto._connection
+        got = []
+        proto.events.message_received += lambda d, got=got: got.append(d["message"])
+        accepted = []
+        try:
+            wire.on_connected({"source": wire})
+            kind = ["interleave", "nak-retransmit", "short-blocks", "interleave+nak"][i % 4]
+            sys_a, sys_b = rr.range(0, 2**32 - 1), rr.range(0, 2**32 - 1)
+            if sys_a == sys_b:
+                sys_b = (sys_a + 1) % 2**32
+            from_eq = proto._settings.device_type == secsgem.common.DeviceType.HOST   # the peer is the other role
+
+            def blocks_of(system, body, sizes=None):
+                hdr_vals = [system, 5, rr.choice([1, 6, 7]), rr.choice([1, 3, 11]), 0, int(from_eq), rr.range(0, 1), 0]
+                if sizes is None:
+                    return list(SecsIMessage(mk_header(hdr_vals), body).blocks)
+                out, pos = [], 0
+                for k, n in enumerate(sizes):
+                    v = list(hdr_vals)
+                    v[4], v[7] = k + 1, int(k == len(sizes) - 1)
+                    out.append(SecsIBlock(mk_header(v), body[pos:pos + n]))
+                    pos += n
+                return out
+            body_a, body_b = rr.bytes(rr.choice([489, 600, 733])), rr.bytes(rr.choice([245, 300, 500]))
+            if kind == "short-blocks":
+                sizes = [rr.range(1, 243), rr.range(1, 244), rr.range(0, 244)]
+                body_a = rr.bytes(sum(sizes))
+                seq = [(b, False) for b in blocks_of(sys_a, body_a, sizes)]
+                want = {sys_a: body_a}
+            else:
+                a_blocks, b_blocks = blocks_of(sys_a, body_a), blocks_of(sys_b, body_b)
+                if kind == "nak-retransmit":
+                    seq = [(a_blocks[0], False), (a_blocks[1], True), (a_blocks[1], False)] + [(b, False) for b in a_blocks[2:]]
+                    want = {sys_a: body_a}
+                else:
+                    seq, ia, ib = [], 0, 0
+                    while ia < len(a_blocks) or ib < len(b_blocks):
+                        if ib >= len(b_blocks) or (ia < len(a_blocks) and rr.chance(1, 2)):
+                            seq.append((a_blocks[ia], False))
+                            ia += 1
+                        else:
+                            seq.append((b_blocks[ib], False))
+                            ib += 1
+                    if kind == "interleave+nak":
+                        # a damaged copy of a later block of A goes first and is NAKed; B's blocks already accepted must survive that
+                        j = next((k for k, (b, _) in enumerate(seq) if b.header.system == sys_a and b.header.block > 1), None)
+                        if j is not None:
+                            seq.insert(j, (seq[j][0], True))
+                    want = {sys_a: body_a, sys_b: body_b}
+            stalled = None
+            for blk, damage in seq:
+                raw = bytearray(blk.encode())
+                if damage:
+                    raw[rr.range(1, len(raw) - 1)] ^= 1 << rr.range(0, 7)
+                wire.on_data({"source": wire, "data": bytes([5])})          # ENQ
+                if wire.take() != 4:                                       # EOT
+                    stalled = "no EOT after ENQ"
+                    break
+                cut = rr.range(1, len(raw) - 1)
+                wire.on_data({"source": wire, "data": bytes(raw[:cut])})
+                wire.on_data({"source": wire, "data": bytes(raw[cut:])})
+                ans = wire.take()
+                if ans is None:
+                    stalled = "no ACK/NAK after a block"
+                    break
+                if damage and ans != 0x15:
+                    res.violate("corrupt-accepted", "a block with one flipped bit sent by a foreign sender was not answered NAK",
+                                {"kind": kind, "block": bytes(raw).hex()}, "NAK", ans)
+                if not damage and ans != 6:
+                    res.violate("block-roundtrip", "an intact block sent by a foreign sender was not answered ACK", {"kind": kind, "block": bytes(raw).hex()}, "ACK", ans)
+                if ans == 6:
+                    accepted.append(blk)
+            t_end = time.time() + 20
+            while stalled is None and time.time() < t_end and len(got) < len(want):
+                time.sleep(0.002)
+            time.sleep(0.01)
+            case = {"kind": kind, "systems": [sys_a, sys_b], "blocks": [(int(b.header.system), int(b.header.block), len(b.data), d) for b, d in seq]}
+            res.count(("foreign", kind, tuple(case["blocks"])), sample=case if i < 4 else None)
+            res.bump("foreign_sender", kind)
+            delivered = {int(m.header.system): bytes(m.data) for m in got}
+            if stalled:
+                res.violate("reassembly", f"foreign-sender transfer stalled: {stalled}", case)
+            elif delivered != want or len(got) != len(want):
+                res.violate("reassembly", "blocks sent by a foreign sender (interleaved transactions / NAKed block retransmitted / short non-final blocks): the messages "
+                            f"delivered are not the messages sent: sent {[(k, len(v)) for k, v in want.items()]}, delivered {[(int(m.header.system), len(m.data), len(m.blocks)) for m in got]}", case)
+            cases.append(case)
+            lines.append("secsi reasm " + " ".join(show_block(b) for b in accepted))
+            answers.append("ok " + ";".join(show_block_of_message(m) for m in got) + " | pending=")
+        except Exception as exc:  # noqa: BLE001
+            res.violate("reassembly", f"foreign-sender scenario: {hlib.errkind(exc)}: {exc}", {"i": i})
+        finally:
+            try:
+                wire.on_disconnected({"source": wire})
+            except Exception:  # noqa: BLE001
+                pass
+    hlib.compare_batch(res, drv, "SecsIProtocol receive path driven by a scripted foreign sender vs Model.SecsI.reassemble over the ACKed blocks", cases, lines, answers)
+
     res.dump(a.out)
 
 
